@@ -331,6 +331,7 @@ def check(case, ctx):
             elif op == 'flip':
                 before2d = view(o, 'ctrlpts2d')
                 operations.flip(o, inplace=True)
+                e['inserted'] = []      # the net is mirrored but the knot vectors are not: earlier knots are no longer removable
                 nu, nv = len(before2d), len(before2d[0])
                 after2d = view(o, 'ctrlpts2d')
                 ctx.check(all(near(after2d[i][j], before2d[nu - 1 - i][nv - 1 - j], 1e-12) for i in range(nu) for j in range(nv)),
